@@ -209,16 +209,23 @@ fn parse(text: &str, allow_substvar: bool) -> Parse {
 
                 self.builder.start_node(CONSTRAINT.into());
 
+                let mut operator = String::new();
                 while self.current() == Some(L_ANGLE)
                     || self.current() == Some(R_ANGLE)
                     || self.current() == Some(EQUAL)
                 {
                     #[cfg(feature = "verif-hooks")]
                     verif_tick(12, self.current());
+                    operator.push_str(self.tokens.last().unwrap().1.as_str());
                     self.bump();
                 }
 
                 self.builder.finish_node();
+
+                if operator.parse::<VersionConstraint>().is_err() {
+                    self.errors
+                        .push(format!("Invalid version constraint: {:?}", operator));
+                }
 
                 self.skip_ws();
 
@@ -1471,7 +1478,8 @@ impl Relation {
             .collect::<String>();
 
         if let (Some(constraint), false) = (constraint, version.is_empty()) {
-            let vc: VersionConstraint = constraint.to_string().parse().unwrap();
+            // a tree read by the tolerant parser may hold an operator outside the defined set
+            let vc: VersionConstraint = constraint.to_string().parse().ok()?;
             return Some((vc, version.parse().unwrap()));
         } else {
             None
